@@ -209,3 +209,39 @@ Example fifo_rejects_overtaking :
   accepts 1 [ESubCall 1; ESubRet 1; ESubCall 2; ESubRet 2; EStart 2; EEnd 2; EStart 1; EEnd 1]%N = true /\
   fifo1_ok [ESubCall 1; ESubCall 2; ESubRet 2; ESubRet 1; EStart 2; EEnd 2; EStart 1; EEnd 1]%N = true.
 Proof. vm_compute. repeat split. Qed.
+
+(* ---------- Release and the jobs that were started; the buffered WorkerQueue ---------- *)
+Section ReleaseStarted.
+Variable W Q : nat.
+Notation step := (step W Q). Notation reachable := (reachable W Q).
+
+(* when Release returns, every job that was ever handed to a worker has finished (and only those: what was still queued never runs) *)
+Theorem release_after_every_started_job_finished s : reachable s -> (rp s = RDone \/ rp s = RAcked) ->
+  Permutation (started s) (fin s) /\ (forall j, In j (started s) -> In j (fin s)) /\
+  (forall j, In j (jobq s) -> ~ In j (started s)).
+Proof.
+  intros Hr Hd. destruct (no_job_starts_twice W Q s Hr) as (_ & HP & _).
+  destruct (release_returns_after_all_stopped W Q s Hr Hd) as (_ & _ & Ho & _). rewrite Ho in HP. cbn [app] in HP.
+  split; [exact HP|]. split; [intros j Hj; eapply Permutation_in; eauto|].
+  intros j Hj Hs. destruct (conservation W Q s Hr) as [_ HN]. rewrite Ho in HN. cbn [app] in HN.
+  apply (Permutation_in _ HP) in Hs. eapply NoDup_app_disj; [exact HN|exact Hj|]. apply in_or_app. now right.
+Qed.
+
+(* `w.WorkerQueue <- w` never blocks: the buffered WorkerQueue (capacity W) never holds more than W workers, so modelling the
+   registration as an always enabled step is faithful *)
+Theorem worker_queue_within_capacity s : reachable s -> length (wq s) <= W.
+Proof.
+  intros Hr. destruct (reachable_inv _ _ _ Hr) as ((HL & _ & _ & Hnd & Hin & _) & _).
+  rewrite <- HL. rewrite <- (seq_length (length (wk s)) 0). apply NoDup_incl_length; [exact Hnd|].
+  intros w Hw. apply Hin in Hw. apply nth_some_lt in Hw. apply in_seq. lia.
+Qed.
+Corollary worker_registration_never_blocks s w s' : reachable s -> step s (WorkerReg w) = Some s' -> length (wq s) < W.
+Proof.
+  intros Hr Hs. pose proof (worker_queue_within_capacity s' (reachable_step _ _ _ _ _ Hr Hs)) as H.
+  unfold Gpool.step in Hs. destruct (nth_error (wk s) w) as [[]|]; try discriminate. injection Hs as <-.
+  cbn [wq set_wk set_wq] in H. rewrite app_length in H. cbn in H. lia.
+Qed.
+Theorem worker_queue_never_blocks s : reachable s ->
+  length (wq s) <= W /\ (forall w s', step s (WorkerReg w) = Some s' -> length (wq s) < W).
+Proof. intros Hr. split; [now apply worker_queue_within_capacity|intros w s'; now apply worker_registration_never_blocks]. Qed.
+End ReleaseStarted.
